@@ -489,6 +489,18 @@ func ValidateSeedPairs() (pairs [][2]string, single []struct {
 
 func init() {
 	Checks["X-validate"] = func(c *Ctx) {
+		target := c.Pick(200000, 1000000)
+		if v := os.Getenv("VERIF_VALIDATE_MUTATIONS"); v != "" {
+			target, _ = strconv.Atoi(v)
+		}
+		c.validateSuite(target)
+	}
+}
+
+// validateSuite: the validator / Lean-model correspondence (imported cases, seed pairs, `target`
+// mutations, random rule subsets and orders).
+func (c *Ctx) validateSuite(target int) {
+	{
 		st := NewValStats()
 		pairs, single := ValidateSeedPairs()
 		// (a) every imported case with its own rule (when the rule exists in package rules) …
@@ -513,10 +525,6 @@ func init() {
 		fmt.Printf("seed pairs: %d\n", len(pairs))
 
 		// (c) mutations
-		target := c.Pick(200000, 1000000)
-		if v := os.Getenv("VERIF_VALIDATE_MUTATIONS"); v != "" {
-			target, _ = strconv.Atoi(v)
-		}
 		type seed struct {
 			schema string
 			pool   *NamePool
@@ -595,7 +603,6 @@ func init() {
 		}
 		fmt.Printf("rule subset/order runs: %d × 500 pairs\n", subsetRuns)
 		st.Print()
-		c.Ev.Evals = st.Cases
 		c.Ev.Extra["validate_per_rule_errors"] = st.PerRule
 		c.Ev.Extra["validate_templates_reached"] = st.Templates
 	}
